@@ -487,3 +487,71 @@ Proof. vm_compute. split; reflexivity. Qed.
    field, which is not formalised (see the corresponding remark in Properties_C02.v, B1 (b)).  The quantitative
    clause "every coarsening x relaxation x solver combination reaches 1e-8 within 100 iterations on the model
    problems" stays tested (double build), not proved. *)
+
+(* =====================================================================================
+   The trivial-solution exit of the common prologue (all eight solvers):
+   `if (norm_rhs < amgcl::detail::eps<scalar_type>(1))`, eps<T>(n) = 2 * epsilon * n.  The threshold is
+   2 * epsilon for every number of unknowns; lemmas in KrylovTrivialExit.v.  tools/props/C01.py
+   (window_cases) runs right-hand sides with 2 eps <= ||f|| < 2 eps n, n = 3..40, through all eight
+   solvers (exact and binary64): the solver has to iterate and to return the true relative residual. *)
+From Amgcl Require Import KrylovTrivialExit.
+
+(* the model takes the trivial exit iff ||f|| < eps1 and ns_search is off; the length of f does not occur *)
+Theorem C01_trivial_exit_only_below_two_eps (S : Scalar) (nrm : vec S -> S) (prm : @kprm S) (f : vec S) :
+  takes_trivial_exit nrm prm f <-> (sltb (nrm f) eps1 = true /\ p_ns prm = false).
+Proof. exact (trivial_exit_only_below_eps1 nrm prm f). Qed.
+Print Assumptions C01_trivial_exit_only_below_two_eps.
+
+Theorem C01_trivial_exit_prologue (S : Scalar) (nrm : vec S -> S) (prm : @kprm S) (f : vec S) (nr : S) :
+  k_prologue nrm prm f = Trivial nr <-> (sltb (nrm f) eps1 = true /\ p_ns prm = false /\ nr = nrm f).
+Proof. exact (prologue_trivial_iff nrm prm f nr). Qed.
+Print Assumptions C01_trivial_exit_prologue.
+
+Theorem C01_no_trivial_exit_at_or_above_two_eps (S : Scalar) (nrm : vec S -> S) (prm : @kprm S) (f : vec S) :
+  sltb (nrm f) eps1 = false -> k_prologue nrm prm f = Go (nrm f).
+Proof. exact (prologue_go nrm prm f). Qed.
+Print Assumptions C01_no_trivial_exit_at_or_above_two_eps.
+
+(* right-hand sides of different lengths with the same norm are treated alike *)
+Theorem C01_trivial_exit_independent_of_n (S : Scalar) (nrm : vec S -> S) (prm : @kprm S) (f g : vec S) :
+  nrm f = nrm g -> (takes_trivial_exit nrm prm f <-> takes_trivial_exit nrm prm g).
+Proof. exact (trivial_exit_independent_of_n nrm prm f g). Qed.
+Print Assumptions C01_trivial_exit_independent_of_n.
+
+(* every one of the eight solver models takes its trivial exit through that prologue *)
+Theorem C01_all_solvers_trivial_exit_through_prologue (S : Scalar) (A P : vec S -> vec S) (prm : @kprm S) (f x0 : vec S) :
+  (forall nr junk, k_prologue norm_a prm f = Trivial nr -> cg A P prm f x0 junk = (k_trivial nr x0, junk)) /\
+  (forall nr junk, k_prologue norm_a prm f = Trivial nr -> richardson A P prm f x0 junk = (k_trivial nr x0, junk)) /\
+  (forall nr junk, k_prologue norm_a prm f = Trivial nr -> bicgstab A P prm f x0 junk = (k_trivial nr x0, junk)) /\
+  (forall nr junk, k_prologue norm_b prm f = Trivial nr -> gmres A P prm f x0 junk = (k_trivial nr x0, junk)) /\
+  (forall nr junk, k_prologue norm_b prm f = Trivial nr -> fgmres A P prm f x0 junk = (k_trivial nr x0, junk)) /\
+  (forall nr st, k_prologue norm_b prm f = Trivial nr ->
+                 lgmres A P prm f x0 st =
+                 (k_trivial nr x0, if p_areset prm then mkLgWs (l_g st) (l_data st) cb_clear else st)) /\
+  (forall nr junk, k_prologue norm_a prm f = Trivial nr -> bicgstabl A P prm f x0 junk = (k_trivial nr x0, junk)) /\
+  (forall nr Sh ip junk, ip_k ip = prm -> k_prologue norm_b prm f = Trivial nr ->
+                 idrs A P Sh ip f x0 junk = (k_trivial nr x0, junk)).
+Proof. exact (solvers_trivial_exit A P prm f x0). Qed.
+Print Assumptions C01_all_solvers_trivial_exit_through_prologue.
+
+(* eps1 = 2 * epsilon in every commutative ring whose conversion of the literals 1 and 2 is faithful *)
+Theorem C01_eps1_is_two_eps (S : Scalar) (Srt : Sring S) :
+  @sofQ S (1 # 1)%Q = s1 -> @sofQ S (2 # 1)%Q = s1 + s1 -> @eps1 S = (s1 + s1) * seps.
+Proof. exact (eps1_is_two_eps Srt). Qed.
+Print Assumptions C01_eps1_is_two_eps.
+
+Theorem C01_trivial_exit_only_below_two_eps_Qc (nrm : vec QcS -> QcS) (prm : @kprm QcS) (f : vec QcS) :
+  takes_trivial_exit nrm prm f <-> ((nrm f < qc 2 1 * @seps QcS)%Qc /\ p_ns prm = false).
+Proof. exact (trivial_exit_only_below_two_eps_Qc nrm prm f). Qed.
+Print Assumptions C01_trivial_exit_only_below_two_eps_Qc.
+
+(* n = 40, f = 2^-50 e_0: 2 eps = 2^-51 <= ||f|| = 2^-50 < 2 eps n; CG iterates and reaches x = f *)
+Example C01_window_rhs_iterates :
+  length te_f40 = 40 /\
+  (qc 2 1 * @seps QcS <= norm_a te_f40)%Qc /\ (norm_a te_f40 < qc 2 1 * @seps QcS * qc 40 1)%Qc /\
+  ~ takes_trivial_exit norm_a (te_prm 3) te_f40 /\
+  match cg te_idop te_idop (te_prm 3) te_f40 te_x40 (mkCgWs [] [] [] []) with
+  | (KOk r, _) => k_it r = 1 /\ map this (k_x r) = map this te_f40 /\ k_res r = qc 0 1
+  | _ => False
+  end.
+Proof. exact window_rhs_iterates. Qed.
